@@ -208,3 +208,27 @@ def path_through_symlink(tmp, name):
     if not os.path.islink(lnk):
         os.symlink(os.path.join("deep", "a"), lnk)
     return os.path.join(tmp, "lnk", "..", name), os.path.join(tmp, name)
+
+
+def write_wav(path, data, rate, width, channels, trailing_chunk=False):
+    """a PCM wav file written with the stdlib; with trailing_chunk=True a LIST/INFO chunk (as recorders and editors add) follows
+    the data chunk - it is not audio"""
+    import struct
+    import wave
+
+    with wave.open(path, "wb") as fp:
+        fp.setframerate(rate)
+        fp.setsampwidth(width)
+        fp.setnchannels(channels)
+        fp.writeframes(data)
+    if trailing_chunk:
+        info = b"INFOISFT" + struct.pack("<I", 14) + b"vf test suite\0" + b"ICMT" + struct.pack("<I", 26) + b"<xml>not audio at all</xml"
+        chunk = b"LIST" + struct.pack("<I", len(info)) + info
+        with open(path, "r+b") as fp:
+            fp.seek(0, 2)
+            if fp.tell() % 2:
+                fp.write(b"\0")
+            fp.write(chunk)
+            size = fp.tell() - 8
+            fp.seek(4)
+            fp.write(struct.pack("<I", size))
